@@ -111,6 +111,12 @@ pub struct Cost {
 
 /// One step of `instr` with operands of magnitude m; deterministic cost.
 fn measure(sc: &OpSc, m: i64, iset: &mut InstructionSet) -> Result<Cost, (PanicInfo, u64)> {
+    measure_sized(sc, m, 0, iset)
+}
+
+/// `big` > 0: the top NAME, the top vectors and the top CODE / EXEC items hold about `big`
+/// characters / elements / a tenth as many points (state-size scaling instead of operand scaling).
+fn measure_sized(sc: &OpSc, m: i64, big: usize, iset: &mut InstructionSet) -> Result<Cost, (PanicInfo, u64)> {
     let cfg = ConfigSpec::default_cfg();
     let mut env = EnvScript::quiet(sc.env_seed);
     env.draw_budget = u64::MAX;
@@ -140,6 +146,34 @@ fn measure(sc: &OpSc, m: i64, iset: &mut InstructionSet) -> Result<Cost, (PanicI
     st.exec_stack.push(lit.clone());
     st.exec_stack.push(lit);
     st.float_vector_stack.push(pushr::push::vector::FloatVector::new(vec![lit_f, 1.0, -lit_f]));
+    // ... and inside vectors (ids, states, stack ids: instructions read numbers from there too)
+    st.int_vector_stack.push(pushr::push::vector::IntVector::new(vec![mi as i32, (mi as i32).wrapping_neg(), 3]));
+    st.int_vector_stack.push(pushr::push::vector::IntVector::new(vec![1, mi as i32]));
+    if big > 0 {
+        let unit = ["ab", "é", "x y", "日本"][(sc.seed % 4) as usize];
+        let mut name = String::with_capacity(big + 8);
+        while name.len() < big {
+            name.push_str(unit);
+        }
+        st.name_stack.push(name.clone());
+        st.name_stack.push(name);
+        st.int_vector_stack.push(pushr::push::vector::IntVector::new((0..big as i32).map(|k| k % 97).collect()));
+        st.int_vector_stack.push(pushr::push::vector::IntVector::new((0..big as i32).map(|k| k % 89).collect()));
+        st.float_vector_stack.push(pushr::push::vector::FloatVector::new((0..big).map(|k| (k % 31) as f32).collect()));
+        st.float_vector_stack.push(pushr::push::vector::FloatVector::new((0..big).map(|k| (k % 29) as f32).collect()));
+        st.bool_vector_stack.push(pushr::push::vector::BoolVector::new((0..big).map(|k| k % 3 == 0).collect()));
+        st.bool_vector_stack.push(pushr::push::vector::BoolVector::new((0..big).map(|k| k % 5 == 0).collect()));
+        let flat = |salt: i32| Item::list((0..(big / 10) as i32).map(|k| Item::int(k ^ salt)).collect());
+        st.code_stack.push(flat(1));
+        st.code_stack.push(flat(2));
+        st.exec_stack.push(flat(3));
+        st.exec_stack.push(flat(4));
+        // small scalar operands on top again
+        for k in 0..4 {
+            st.int_stack.push(sc.small_ints[k % sc.small_ints.len()]);
+            st.float_stack.push(0.5 + k as f32);
+        }
+    }
     st.exec_stack.push(Item::instruction(sc.instr.clone()));
     let statebytes = statecode::statecode(&st).len() as u64;
     simenv::trace_note(&sc.instr);
@@ -252,6 +286,29 @@ pub fn execute_op(sc: &OpSc, iset: &mut InstructionSet) -> OpResult {
                     break;
                 }
                 prev = Some(c);
+            }
+        }
+    }
+    // state-size scaling (a quarter of the layouts): "a modest function of the current state size"
+    if stats.outcome.is_empty() && sc.seed % 4 == 0 {
+        for big in [1_000usize, 10_000, 100_000] {
+            stats.steps += 1;
+            let (cost, wall_ms) = match measure_sized(sc, 100, big, iset) {
+                Ok(c) => (Some(c.clone()), c.wall_ms),
+                Err((_p, w)) => (None, w),
+            };
+            let bytes_over = cost.as_ref().map(|c| c.bytes > A_BYTES + B_FACTOR * c.statebytes).unwrap_or(false);
+            if wall_ms > 1_000 || bytes_over {
+                let c = cost.unwrap_or_default();
+                vs.push(Violation {
+                    property: "C15".into(),
+                    class: "oracle:state-cost".into(),
+                    site: format!("{}: the cost of one step grows faster than the state it works on", sc.instr),
+                    detail: format!("{} on a state whose top name / vectors hold {} characters / elements (code items {} points): {} ms of wall clock, {} bytes allocated for {} state bytes (bound 64 KiB + 64 x state bytes, 1 s)", sc.instr, big, big / 10, wall_ms, c.bytes, c.statebytes),
+                    at_event: big as u64,
+                });
+                stats.outcome = "excess".into();
+                break;
             }
         }
     }
